@@ -601,7 +601,7 @@ PROPS["C05"]["explanation"] += (" Oracle for nested contents: for Map<_,Orswot> 
 # --------------------------------------------------------------------------------------------
 W = dict(orswot=dict(name="orswot_wide", quick=150, thorough=3000), mvreg=dict(name="mvreg_wide", quick=150, thorough=3000),
          map=dict(name="map_wide", quick=150, thorough=3000), lattice=dict(name="lattice_wide", quick=300, thorough=6000),
-         vclock=dict(name="vclock_wide", quick=100, thorough=2000), list=dict(name="list_wide", quick=60, thorough=1000),
+         vclock=dict(name="vclock_wide", quick=100, thorough=2000), list=dict(name="list_wide", quick=24, thorough=800),
          glist=dict(name="glist_wide", quick=100, thorough=2000), ident=dict(name="ident_wide", quick=2000, thorough=40000))
 for _pid, _ws in dict(C01=["orswot", "mvreg", "lattice", "vclock", "map", "list", "glist"], C02=["orswot", "mvreg", "lattice", "vclock", "map", "glist"],
                       C03=["orswot", "mvreg", "lattice", "vclock", "map", "glist"], C04=["orswot"], C05=["map"], C06=["mvreg"],
@@ -627,3 +627,8 @@ for _pid in ("C01", "C02", "C03", "C04", "C05", "C07", "C09", "C20"):
                                    "current state, delivered under the per-actor discipline, merged between replicas and saved states; LogWF, Reach-derivability, 'own ops known', positive contiguous counters (and, for Map<K,Orswot>, "
                                    "NLogWF and – in the causal op-only sub-system – ReachC) are proved INVARIANTS of every run, so the Orswot / Map key-level / nested-Orswot theorems hold for every execution with no well-formedness hypothesis (run_*).")
 PROPS["C04"]["assumptions"] = ["each actor edits at one replica (built into the system model Sys.Run, where LogWF is a theorem: run_logWF); for the Reach-level statements LogWF is a hypothesis"]
+
+# MerkleReg at a wider scope (long orphan chains released by one apply, 66..90 orphans pending at once, layered DAGs). The Lean driver's
+# specification (|K| rounds of the visibility iteration, recomputed after every command) is cubic, so few cases: quick 1 (a chain), thorough 6;
+# a run on a changed source tree multiplies the quick budget by 3 = one case of each family.
+PROPS["C15"]["profiles"] = PROPS["C15"]["profiles"] + [dict(name="merkle_wide", quick=1, thorough=6)]
